@@ -371,7 +371,9 @@ func JoinQuery(rt *rapid.T, db *model.DB, misaddress bool) Select {
 		}
 	}
 	if misaddress {
-		switch rapid.IntRange(0, 2).Draw(rt, "mis") {
+		// (addressing an aliased table through its name is not generated: the property
+		// says the alias works, not that the name must stop working)
+		switch rapid.SampledFrom([]int{0, 0, 2}).Draw(rt, "mis") {
 		case 0: // unqualified although the name exists on both sides
 			for n, c := range nameCount {
 				if c > 1 {
